@@ -215,6 +215,18 @@ func Mutate(r *hx.Rand, orig *Bundle, rule string) (m *Bundle, element string, o
 		}
 		dep := b.Packages[1].Files[0].File
 		dep.Imports = append(dep.Imports, Import{ID: root.ID})
+		// the import has to be used, otherwise the package is rejected for that reason
+		var target string
+		for _, k := range []string{"message", "enum", "struct"} {
+			if n, ok := firstDef(b, k); ok {
+				target = n
+				break
+			}
+		}
+		if target == "" {
+			return nil, "", false
+		}
+		dep.Defs = append(dep.Defs, Def{Kind: "message", Name: "MCycle", Fields: []Field{{Name: "back", Ty: Ty{Base: BaseT{Kind: BRef, Import: root.ID, Name: target}}, Tag: 1}}})
 		return b, root.ID, true
 	case "dup-import":
 		f := root.Files[0].File
